@@ -474,7 +474,30 @@ def rule_r9(ctx):
     c15.rule_r5(ctx, rid="C20.R9")
 
 
-RULES = [rule_r1, rule_r2, rule_r3, rule_r4, rule_r5, rule_r6, rule_r7, rule_r9]
+def rule_r10(ctx):
+    rid = "C20.R10"
+    ctx.r.rule(rid, "accepted settings are applied: unix_socket_perms is applied to the socket file after bind() created it")
+    p = ctx.p
+    f = p.func("server.UnixWSGIServer.bind_server_socket")
+    g = cfg_of(f)
+    binds = [n for n, c in find_calls(g, lambda c: dotted(c.func) == "self.bind")]
+    chm = [n for n, c in find_calls(g, lambda c: dotted(c.func) == "os.chmod")]
+    if not chm:
+        ctx.r.violation(rid, key_of(f, None, "perms-not-applied"), "unix_socket_perms is never applied (no os.chmod)", f.loc())
+        return
+    for n in chm:
+        c = [x for x in ast.walk(n.ast) if isinstance(x, ast.Call) and dotted(x.func) == "os.chmod"][0]
+        if binds and all(g.dominates(b, n) for b in binds):
+            ctx.r.ok(rid, "chmod after bind", f.loc(n.ast))
+        else:
+            ctx.r.violation(rid, key_of(f, None, "chmod-before-bind"), "os.chmod runs before bind() created the socket file: the exists() guard skips it and the socket keeps the umask default instead of unix_socket_perms", f.loc(n.ast))
+        if len(c.args) >= 2 and norm(c.args[1]).endswith("adj.unix_socket_perms") and norm(c.args[0]).endswith("adj.unix_socket"):
+            ctx.r.ok(rid, "chmod(adj.unix_socket, adj.unix_socket_perms)", f.loc(n.ast))
+        else:
+            ctx.r.violation(rid, key_of(f, None, "chmod-args"), "os.chmod is called with %s" % norm(c)[:60], f.loc(n.ast))
+
+
+RULES = [rule_r1, rule_r2, rule_r3, rule_r4, rule_r5, rule_r6, rule_r7, rule_r9, rule_r10]
 
 from ..selftest import M, T, V  # noqa: E402
 
